@@ -80,6 +80,22 @@ void AbstractDiscreteDistribution::tieParametersToOwnDomain_(const IntervalConst
   }
 }
 
+void AbstractDiscreteDistribution::shareNestedConstraints_(const DiscreteDistributionInterface& sourceNested, const DiscreteDistributionInterface& nested)
+{
+  const ParameterList& spl = sourceNested.getParameters();
+  const ParameterList& npl = nested.getParameters();
+  for (size_t i = 0; i < spl.size(); ++i)
+  {
+    const std::string& name = spl[i].getName();
+    if (!getParameters().hasParameter(name) || !npl.hasParameter(name))
+      continue;
+    Parameter& own = getParameters_().parameter(name);
+    std::shared_ptr<ConstraintInterface> sc = spl.getParameter(i)->getConstraint();
+    if (sc && own.getConstraint() == sc)
+      own.setConstraint(npl.getParameter(name)->getConstraint());
+  }
+}
+
 /******************************************************************************/
 
 size_t AbstractDiscreteDistribution::getNumberOfCategories() const
